@@ -32,6 +32,14 @@ package protocol_test
 //       (1)-(3) too.
 // A sync of correct artifacts that is refused is a violation as well (the served artifacts
 // did not reproduce the state for the real consumer).
+//
+// zz_verif_c11hostile_test.go adds, on the same machinery: (A) hostile servers (a well-formed
+// snapshot of another state announced with its own root; a served range with the identity diff
+// of one identity-changing block missing) that the real consumer must refuse without moving,
+// followed by the correct artifacts from an honest peer, and (B) the state-API probe: what the
+// node answers through the getters of its main app state right after the switch must be what
+// the fully synced node's read-only view of the snapshot height answers (every case of this
+// file runs it between postConsuming and oracle (1)).
 
 import (
 	"bytes"
@@ -88,11 +96,19 @@ func (c *c11Ctx) manifestFrom(r *verifsim.Replica, h uint64) (*snapshot.Manifest
 	return &snapshot.Manifest{Height: h, Root: root, CidV2: id.Bytes()}, nil
 }
 
+// c11SyncOpt: what the hostile-server cases and the state-API probe need from realSync.
+type c11SyncOpt struct {
+	// the connection is torn down synchronously when the node bans the server (c11ConnectSyncTeardown)
+	syncTeardown bool
+	// runs right before postConsuming on the node object that is going to switch
+	beforePost func(cli *c11Node)
+}
+
 // realSync brings cli to the manifest height with the real fastSync, fed by srv over the wire.
 // It may replace cli (restart variant), so it returns the node to go on with.
-func (c *c11Ctx) realSync(cli, srv *c11Node, m *snapshot.Manifest, p c11Plan, tag string) (*c11Node, string, error) {
+func (c *c11Ctx) realSync(cli, srv *c11Node, m *snapshot.Manifest, p c11Plan, tag string, o c11SyncOpt) (*c11Node, string, error) {
 	rep := c.rep
-	link, err := c11Connect(cli, srv)
+	link, err := c11ConnectOpt(cli, srv, o.syncTeardown)
 	if err != nil {
 		return cli, "connect", err
 	}
@@ -145,7 +161,7 @@ func (c *c11Ctx) realSync(cli, srv *c11Node, m *snapshot.Manifest, p c11Plan, ta
 					return cli, "restart", err
 				}
 				cli = c11NewNode(c.t, cli.r, cli.name)
-				if link, err = c11Connect(cli, srv); err != nil {
+				if link, err = c11ConnectOpt(cli, srv, o.syncTeardown); err != nil {
 					return cli, "connect", err
 				}
 				rep.Count("real_sync_resumed_after_restart", 1)
@@ -156,6 +172,9 @@ func (c *c11Ctx) realSync(cli, srv *c11Node, m *snapshot.Manifest, p c11Plan, ta
 			}
 			rep.Count("real_sync_resumed", 1)
 		}
+	}
+	if o.beforePost != nil {
+		o.beforePost(cli)
 	}
 	if err := post(); err != nil {
 		return cli, "postConsuming", err
@@ -176,6 +195,11 @@ func c11Kind(b *types.Block) string {
 // checkSynced applies oracles (1) and (2) to a node that was fast-synced from height base to snapH.
 // preDB is a copy of the node's database taken before the sync started.
 func (c *c11Ctx) checkSynced(x *c11Node, base, snapH uint64, preDB dbm.DB, gen, label string) bool {
+	return c.checkState(x, snapH, gen, label) && c.checkStored(x, base, snapH, preDB, gen, label)
+}
+
+// checkState applies oracle (2).
+func (c *c11Ctx) checkState(x *c11Node, snapH uint64, gen, label string) bool {
 	rep, env := c.rep, c.env
 	X := x.r
 	canon := env.Canon[snapH]
@@ -203,7 +227,13 @@ func (c *c11Ctx) checkSynced(x *c11Node, base, snapH uint64, preDB dbm.DB, gen, 
 	} else {
 		rep.Note("fully synced node has no readonly state at %d: %v", snapH, err)
 	}
-	// (1) what the node stores per height
+	return true
+}
+
+// checkStored applies oracle (1): what the node stores per height.
+func (c *c11Ctx) checkStored(x *c11Node, base, snapH uint64, preDB dbm.DB, gen, label string) bool {
+	rep, env := c.rep, c.env
+	X := x.r
 	F, err := env.W.ScratchReplica(preDB, "replay-follower")
 	if err != nil {
 		rep.Inconcl("replay follower could not boot on the pre-sync copy: %v", err)
@@ -310,25 +340,68 @@ func (c *c11Ctx) continueCanonical(x *c11Node, snapH uint64, gen, label string) 
 	return true
 }
 
-// syncCase = a node fast-synced from srv by the real code + oracles; returns the node (nil if it
-// did not get through).
-func (c *c11Ctx) syncCase(srv *c11Node, p c11Plan, gen, label string) *c11Node {
+// newSyncingNode boots the node of a case: fresh, or fully synced up to p.base. It returns the
+// replica, its height and a copy of its database (for the replay follower of oracle (1)).
+func (c *c11Ctx) newSyncingNode(p c11Plan, name string) (*verifsim.Replica, uint64, dbm.DB, bool) {
 	rep, env := c.rep, c.env
-	tag := fmt.Sprintf("world %d %s from %s base=%d snap=%d batch=%d interrupt=%d restart=%v", c.world, gen, label, p.base, p.snapH, p.batch, p.interrupt, p.restart)
-	rep.Progress("C11 real fast sync %s", tag)
-	X, err := env.W.ScratchReplica(dbm.NewMemDB(), "fastsynced-"+gen)
+	X, err := env.W.ScratchReplica(dbm.NewMemDB(), name)
 	if err != nil {
 		rep.Inconcl("scratch replica failed to boot: %v", err)
-		return nil
+		return nil, 0, nil, false
 	}
 	if p.base > 0 {
 		if err := env.FollowTo(X, p.base); err != nil {
 			rep.Inconcl("fresh node refused the canonical prefix: %v", err)
-			return nil
+			return nil, 0, nil, false
 		}
 	}
-	base := X.Head().Height()
-	preDB := verifsim.CloneDB(X.DB)
+	return X, X.Head().Height(), verifsim.CloneDB(X.DB), true
+}
+
+// syncFailure gives the verdict on a real sync of CORRECT artifacts that did not get through.
+func (c *c11Ctx) syncFailure(tag, scope, phase string, err error) {
+	rep := c.rep
+	why := c.logs.reason()
+	all := strings.Join(c.logs.all(), " | ")
+	// no verdict from harness set-up failures and from an expired wall-clock timeout of the real
+	// code that no refusal preceded (overloaded machine)
+	if phase == "connect" || phase == "restart" || why == "" && strings.Contains(all, "timeout was reached") {
+		rep.Inconcl("real fast sync (%s) did not get through in %s without a refusal by the node: %v; log: %s", tag, phase, err, all)
+		c.stop = true
+		return
+	}
+	if why == "" {
+		why = verifsim.ErrClass(err)
+	}
+	rep.Violation("real-fast-sync-refuses-served-artifacts:"+scope+":"+phase+":"+why, fmt.Sprintf("the real fast sync (%s) failed in %s: %v; what the node logged: %s", tag, phase, err, strings.Join(c.logs.all(), " | ")),
+		map[string]interface{}{"case": tag, "log": c.logs.all()})
+	c.nRef++
+	if c.nRef >= 3 {
+		c.stop = true
+		rep.Note("three real fast syncs were refused: the remaining cases of this child are skipped")
+	}
+}
+
+// afterSwitch: the node has just completed postConsuming. First the state-API probe (before
+// anything else touches the node), then oracles (1)-(3).
+func (c *c11Ctx) afterSwitch(x *c11Node, base, snapH uint64, preDB dbm.DB, gen, label string, probe *c11Probe) bool {
+	probe.compareAfterSwitch(c, x, snapH, gen, label)
+	if !c.checkSynced(x, base, snapH, preDB, gen, label) {
+		return false
+	}
+	return c.continueCanonical(x, snapH, gen, label)
+}
+
+// syncCase = a node fast-synced from srv by the real code + oracles; returns the node (nil if it
+// did not get through).
+func (c *c11Ctx) syncCase(srv *c11Node, p c11Plan, gen, label string) *c11Node {
+	rep := c.rep
+	tag := fmt.Sprintf("world %d %s from %s base=%d snap=%d batch=%d interrupt=%d restart=%v", c.world, gen, label, p.base, p.snapH, p.batch, p.interrupt, p.restart)
+	rep.Progress("C11 real fast sync %s", tag)
+	X, base, preDB, ok := c.newSyncingNode(p, "fastsynced-"+gen)
+	if !ok {
+		return nil
+	}
 	m, err := c.manifestFrom(srv.r, p.snapH)
 	if err != nil {
 		rep.Inconcl("%s cannot export a snapshot at %d (head %d): %v", label, p.snapH, srv.r.Head().Height(), err)
@@ -345,33 +418,15 @@ func (c *c11Ctx) syncCase(srv *c11Node, p c11Plan, gen, label string) *c11Node {
 			rep.Count("real_sync_heights_served_without_cert", 1)
 		}
 	}
-	x, phase, err := c.realSync(x, srv, m, p, tag)
+	// the node reads its state through the state API before the sync (and again right before the
+	// switch: a restart in between gives it new objects)
+	probe := c.newProbe(x, p.snapH)
+	x, phase, err := c.realSync(x, srv, m, p, tag, c11SyncOpt{beforePost: probe.readBeforeSwitch})
 	if err != nil {
-		why := c.logs.reason()
-		all := strings.Join(c.logs.all(), " | ")
-		// no verdict from harness set-up failures and from an expired wall-clock timeout of the real
-		// code that no refusal preceded (overloaded machine)
-		if phase == "connect" || phase == "restart" || why == "" && strings.Contains(all, "timeout was reached") {
-			rep.Inconcl("real fast sync (%s) did not get through in %s without a refusal by the node: %v; log: %s", tag, phase, err, all)
-			c.stop = true
-			return nil
-		}
-		if why == "" {
-			why = verifsim.ErrClass(err)
-		}
-		rep.Violation("real-fast-sync-refuses-served-artifacts:"+gen+":"+phase+":"+why, fmt.Sprintf("the real fast sync (%s) failed in %s: %v; what the node logged: %s", tag, phase, err, strings.Join(c.logs.all(), " | ")),
-			map[string]interface{}{"case": tag, "log": c.logs.all()})
-		c.nRef++
-		if c.nRef >= 3 {
-			c.stop = true
-			rep.Note("three real fast syncs were refused: the remaining cases of this child are skipped")
-		}
+		c.syncFailure(tag, gen, phase, err)
 		return nil
 	}
-	if !c.checkSynced(x, base, p.snapH, preDB, gen, label) {
-		return nil
-	}
-	if !c.continueCanonical(x, p.snapH, gen, label) {
+	if !c.afterSwitch(x, base, p.snapH, preDB, gen, label, probe) {
 		return nil
 	}
 	rep.Count("real_fast_syncs_completed:"+gen+":"+label, 1)
@@ -409,7 +464,7 @@ func (c *c11Ctx) runWorld() {
 		r     *verifsim.Replica
 	}
 	servers := []srvT{{"straight-server", env.Straight}, {"reorged-server", env.Reorged}, {"sparse-cert-server", env.Sparse}}
-	for _, s := range servers {
+	for si, s := range servers {
 		if s.r.Head().Hash() != env.Straight.Head().Hash() {
 			rep.Note("%s is not on the canonical head (%d vs %d): skipped", s.label, s.r.Head().Height(), head)
 			continue
@@ -417,10 +472,7 @@ func (c *c11Ctx) runWorld() {
 		srv := c11NewNode(c.t, s.r, s.label)
 		for k := 0; k < 3 && !c.stop; k++ {
 			var p c11Plan
-			lo := uint64(2)
-			if head > 92 {
-				lo = head - 90 // the server keeps the last state.MaxSavedStatesCount versions
-			}
+			lo := lo90(head)
 			switch k {
 			case 0: // a fresh node, the batch size of the real downloader
 				p = c11Plan{snapH: head - uint64(r.Range(1, 20))}
@@ -464,7 +516,19 @@ func (c *c11Ctx) runWorld() {
 			}
 			c.syncCase(x, p2, "gen2", s.label)
 		}
+		if !c.stop {
+			c.hostileCases(srv, s.label, si, lo90(head))
+		}
 	}
+}
+
+// lo90: the lowest height whose state version a server at head still has (it keeps the last
+// state.MaxSavedStatesCount versions).
+func lo90(head uint64) uint64 {
+	if head > 92 {
+		return head - 90
+	}
+	return 2
 }
 
 func TestVerifC11FastSync(t *testing.T) {
